@@ -106,13 +106,14 @@ class Signature(wiring.Signature):
         if granularity > data_width:
             raise ValueError(f"Granularity {granularity} may not be greater than data width "
                              f"{data_width}")
-        for feature in features:
-            Feature(feature) # raises ValueError if feature is invalid
+        # `features` may be a one-shot iterator: iterate over it only once.
+        features = frozenset(Feature(feature) # raises ValueError if feature is invalid
+                             for feature in features)
 
         self._addr_width  = addr_width
         self._data_width  = data_width
         self._granularity = granularity
-        self._features    = frozenset(Feature(f) for f in features)
+        self._features    = features
 
         members = {
             "adr":   Out(self.addr_width),
